@@ -1,4 +1,100 @@
-(* C03 - placeholder; real theorems follow *)
-From Coq Require Import ZArith Lia.
-Theorem placeholder_C03 : 0 = 0. Proof. reflexivity. Qed.
-Print Assumptions placeholder_C03.
+(* C03 - Key and signature encodings are strict, canonical and round-trip.
+   Statements only; proofs in Proofs/DerProofs.v, Proofs/PubkeyProofs.v, Proofs/EcdsaProofs.v.
+   Models: Model/Der.v, Model/Base.v (eckey_pubkey_parse), Model/Keys.v - tied to the C code by ./check C03. *)
+From Coq Require Import ZArith List Bool Lia.
+Require Import Spec.Params Spec.Field Spec.Curve Spec.Bytes.
+Require Import Model.Base Model.Keys Model.Der Model.Ecdsa.
+Require Import Proofs.BytesLemmas Proofs.EcdsaProofs Proofs.DerProofs Proofs.PubkeyProofs Proofs.SecpConsts.
+Import ListNotations.
+Local Open Scope Z_scope.
+Notation S := secp256k1.
+Lemma secp_n_le_2_256 : cn S <= 2 ^ 256. Proof. vm_compute. discriminate. Qed.
+Lemma secp_p_le_2_256 : cp S <= 2 ^ 256. Proof. vm_compute. discriminate. Qed.
+
+(* DER serialization: reports the needed size 6+lenR+lenS (<= 72) in every case, succeeds iff the buffer
+   has at least that size, and what it writes parses back (strictly) to the same (r, s). *)
+Theorem der_serialize_size_and_roundtrip :
+  forall r s size, 0 <= r < cn S -> 0 <= s < cn S ->
+    let '(ret, need, out) := ecdsa_sig_serialize size r s in
+    need = 6 + Z.of_nat (length (der_int r)) + Z.of_nat (length (der_int s)) /\ need <= 72 /\
+    (ret = 1 <-> need <= size) /\ (ret = 0 \/ ret = 1) /\
+    (ret = 1 -> Z.of_nat (length out) = need /\ ecdsa_sig_parse S out = Some (r, s)).
+Proof. exact (der_serialize_parse S secp_n_le_2_256). Qed.
+Print Assumptions der_serialize_size_and_roundtrip.
+
+(* The content bytes written for an integer are the minimal encoding: non-empty, at most 33 bytes,
+   first byte < 0x80, a leading 0x00 only before a byte >= 0x80, value preserved. *)
+Theorem der_int_minimal :
+  forall v, 0 <= v < 2 ^ 256 ->
+    let b := der_int v in
+    bytes_okP b /\ hd_small b /\ der_minimal b /\ be_val b = v /\ (1 <= length b <= 33)%nat.
+Proof. exact (der_int_spec). Qed.
+Print Assumptions der_int_minimal.
+
+(* The DER parser either rejects and leaves the all-zero object, or accepts with both scalars in [0,n). *)
+Theorem der_parse_outcomes :
+  forall input,
+    ecdsa_signature_parse_der S input = [AInt 0; ABytes (zeros 64)] \/
+    exists r s, ecdsa_signature_parse_der S input = [AInt 1; ABytes (sig_obj r s)] /\ 0 <= r < cn S /\ 0 <= s < cn S.
+Proof. exact (der_parse_outcomes S secp_n_pos). Qed.
+Print Assumptions der_parse_outcomes.
+
+(* Compact parser: accepts iff r < n and s < n; otherwise the object is all-zero. *)
+Theorem compact_parse_exact :
+  forall input64,
+    let r := be_val (firstn 32 input64) in let s := be_val (skipn 32 input64) in
+    (r < cn S /\ s < cn S -> ecdsa_signature_parse_compact S input64 = [AInt 1; ABytes (sig_obj (r mod cn S) (s mod cn S))]) /\
+    (~ (r < cn S /\ s < cn S) -> ecdsa_signature_parse_compact S input64 = [AInt 0; ABytes (zeros 64)]).
+Proof. exact (compact_parse_exact S secp_n_pos). Qed.
+Print Assumptions compact_parse_exact.
+
+(* A signature object left by a failed parse (all-zero), or one with a zero scalar (what an out-of-range
+   DER integer becomes), never verifies for any message and key. *)
+Theorem failed_parse_never_verifies :
+  forall msg32 pkobj,
+    ecdsa_verify S (zeros 64) msg32 pkobj = [AInt 0] \/ ecdsa_verify S (zeros 64) msg32 pkobj = [AInt 0; AIll 1].
+Proof. exact (zero_sig_never_verifies S). Qed.
+Print Assumptions failed_parse_never_verifies.
+Theorem zero_scalar_never_verifies :
+  forall sigobj msg32 pkobj, sig_obj_r sigobj = 0 \/ sig_obj_s sigobj = 0 ->
+    ecdsa_verify S sigobj msg32 pkobj = [AInt 0] \/ ecdsa_verify S sigobj msg32 pkobj = [AInt 0; AIll 1].
+Proof. exact (zero_r_or_s_never_verifies S). Qed.
+Print Assumptions zero_scalar_never_verifies.
+
+(* Public keys: whatever the parser accepts is a finite on-curve point given with the right length and
+   prefix; x-coordinate lifting only yields on-curve points. *)
+Theorem pubkey_parse_sound :
+  forall b Q, eckey_pubkey_parse S b = Some Q ->
+    Q <> None /\ on_curve S Q = true /\
+    ((length b = 33%nat /\ (nth 0 b 0 = 2 \/ nth 0 b 0 = 3)) \/
+     (length b = 65%nat /\ (nth 0 b 0 = 4 \/ nth 0 b 0 = 6 \/ nth 0 b 0 = 7))).
+Proof. exact (pubkey_parse_sound S secp_p_pos). Qed.
+Print Assumptions pubkey_parse_sound.
+
+(* Uncompressed serialization round-trips; hybrid encodings are accepted iff the prefix matches the parity
+   of y, and then denote the same point (so they re-serialize to the uncompressed form). *)
+Theorem pubkey_uncompressed_roundtrip :
+  forall x y, on_curve S (Some (x, y)) = true -> eckey_pubkey_parse S (ser65 (Some (x, y))) = Some (Some (x, y)).
+Proof. exact (uncompressed_roundtrip S secp_p_le_2_256). Qed.
+Print Assumptions pubkey_uncompressed_roundtrip.
+Theorem pubkey_hybrid_exact :
+  forall tag x y, on_curve S (Some (x, y)) = true -> (tag = 4 \/ tag = 6 \/ tag = 7) ->
+    eckey_pubkey_parse S (tag :: fe_to_b32 x ++ fe_to_b32 y) =
+      if ((tag =? 6) || (tag =? 7)) && negb (Bool.eqb (Z.odd y) (tag =? 7)) then None else Some (Some (x, y)).
+Proof. exact (parse_tagged65 S secp_p_le_2_256). Qed.
+Print Assumptions pubkey_hybrid_exact.
+
+(* Serialization buffer contract. *)
+Theorem pubkey_serialize_buffer_contract :
+  forall outlen obj flags,
+    let need := if Z.testbit flags 8 then 33 else 65 in
+    (outlen < need -> ec_pubkey_serialize outlen obj flags = [AInt 0; AInt outlen; AIll 1]) /\
+    (need <= outlen -> Z.land flags 255 = 2 -> forall Q, pk_load obj = Some Q ->
+       exists s, ec_pubkey_serialize outlen obj flags = [AInt 1; AInt need; ABytes (s ++ zeros (Z.to_nat outlen - length s))]
+                 /\ s = (if Z.testbit flags 8 then ser33 Q else ser65 Q)).
+Proof. exact serialize_contract. Qed.
+Print Assumptions pubkey_serialize_buffer_contract.
+
+(* non-vacuity: G is on the curve, its uncompressed encoding round-trips (instance of the theorem) *)
+Example G_roundtrip : eckey_pubkey_parse S (ser65 (G S)) = Some (G S).
+Proof. exact (pubkey_uncompressed_roundtrip (cgx S) (cgy S) secp_G_on_curve). Qed.
